@@ -7,7 +7,22 @@ metadata, which would plant the key in the output tree by our own doing).
 The run is observed from outside the repo code: `OmegaConf.save`, Lightning's
 checkpoint writer, `torch.save` and `shutil.rmtree` are wrapped; after every
 wrapped call (= a file-write boundary = a possible crash point) the whole
-output tree is scanned for the API key.  Result: JSON written to spec["result"].
+output tree is scanned for the API key (raw, base64 at the three byte alignments, hex,
+reversed; inside zip members too).  Result: JSON written to spec["result"].
+
+Spec fields (all but the first six optional; defaults reproduce the round-1 runs):
+  model_type, framework (torch_dataset | torch_dataset_np_chunks | litdata), use_wandb, save_ckpt,
+  structured, delete_chunks,
+  wandb_mode     "offline" | None | "online"   (config-level; the ENVIRONMENT always forces offline)
+  use_existing   two-step sequence: a preparatory run creates the chunks and keeps them, the observed
+                 run re-uses them (`use_existing_chunks=True`)
+  mem_fallback   psutil reports no available memory: `_create_data_loaders_torch_dataset` switches the
+                 framework to np_chunks mid-run (chunks under ./train_chunks, ./val_chunks of the cwd)
+  fault          {"at": "fit_return" | "fit_start" | "ckpt_hook" | "dataset" | "after_initial",
+                  "kind": "runtime" | "ki"}   (legacy: inject_fit_fault=True == fit_return/runtime)
+  opts           nuisance options that must not change the observable behaviour: early_stopping,
+                 profiler, steps_per_epoch, save_top_k, save_last, chunk_size, scale, crop_auto,
+                 max_epochs, strategy, explicit_names (head part_names / edges spelled out instead of None)
 """
 from __future__ import annotations
 
@@ -17,25 +32,52 @@ import sys
 import traceback
 from pathlib import Path
 
-KEY_DEFAULT = "SECRETKEY123"
+KEY_DEFAULT = "c19f5ec2e7a1b2c3d4e5f60718293a4b5c6d7e8f"     # 40 chars, the shape wandb.login accepts
+
+
+def key_patterns(key: str) -> list[tuple[str, bytes]]:
+    """byte patterns whose presence in a file means the key was persisted: raw, the alignment-
+    independent core of its base64 encoding at the three byte offsets, hex, upper-case, reversed,
+    utf-16.  (url-encoding an alphanumeric key is the identity.)"""
+    import base64
+    kb = key.encode()
+    pats = [("raw", kb), ("hex", kb.hex().encode()), ("reversed", kb[::-1]), ("upper", key.upper().encode()),
+            ("utf16", key.encode("utf-16-le"))]
+    for off in range(3):
+        enc = base64.b64encode(b"\0" * off + kb)
+        lead = (off * 8 + 5) // 6            # base64 chars that depend on the padding bytes
+        core = enc[lead:].rstrip(b"=")
+        core = core[:len(core) - 1] if (off + len(kb)) % 3 else core    # last char depends on what follows
+        pats.append((f"base64@{off}", core))
+        pats.append((f"base64url@{off}", core.replace(b"+", b"-").replace(b"/", b"_")))
+    seen, out = set(), []
+    for n, b in pats:
+        if b not in seen and len(b) >= 12:
+            seen.add(b)
+            out.append((n, b))
+    return out
 
 
 # --------------------------------------------------------------------------
 # configuration construction
 
-def head_dict(model_type: str) -> dict:
+def head_dict(model_type: str, explicit_names: bool = False) -> dict:
+    """`explicit_names`: part_names / edges spelled out (the skeleton of tests/assets/minimal_instance) instead
+    of None = "take them from the labels file"."""
     heads = {"single_instance": None, "centroid": None, "centered_instance": None, "bottomup": None}
+    names = ["A", "B"] if explicit_names else None
+    edges = [["A", "B"]] if explicit_names else None
     if model_type == "single_instance":
-        heads["single_instance"] = {"confmaps": {"part_names": None, "sigma": 1.5, "output_stride": 2}}
+        heads["single_instance"] = {"confmaps": {"part_names": names, "sigma": 1.5, "output_stride": 2}}
     elif model_type == "centroid":
         heads["centroid"] = {"confmaps": {"anchor_part": 0, "sigma": 1.5, "output_stride": 2}}
     elif model_type == "centered_instance":
-        heads["centered_instance"] = {"confmaps": {"part_names": None, "anchor_part": 0, "sigma": 1.5,
+        heads["centered_instance"] = {"confmaps": {"part_names": names, "anchor_part": 0, "sigma": 1.5,
                                                    "output_stride": 2}}
     elif model_type == "bottomup":
         heads["bottomup"] = {
-            "confmaps": {"part_names": None, "sigma": 1.5, "output_stride": 2, "loss_weight": 1.0},
-            "pafs": {"edges": None, "sigma": 4.0, "output_stride": 4, "loss_weight": 1.0}}
+            "confmaps": {"part_names": names, "sigma": 1.5, "output_stride": 2, "loss_weight": 1.0},
+            "pafs": {"edges": edges, "sigma": 4.0, "output_stride": 4, "loss_weight": 1.0}}
     else:
         raise ValueError(model_type)
     return heads
@@ -46,9 +88,14 @@ UNET = {"in_channels": 1, "kernel_size": 3, "filters": 4, "filters_rate": 1.5, "
         "up_interpolate": True, "output_stride": 2}
 
 
+def opt(spec: dict, name: str, default):
+    return (spec.get("opts") or {}).get(name, default)
+
+
 def plain_dict(spec: dict) -> dict:
     """The configuration as a plain nested dict (what a user would write in YAML)."""
-    return {
+    lit = spec["framework"] == "litdata"
+    d = {
         "data_config": {
             "provider": "LabelsReader",
             "train_labels_path": spec["labels"],
@@ -56,13 +103,15 @@ def plain_dict(spec: dict) -> dict:
             "test_file_path": None,
             "user_instances_only": True,
             "data_pipeline_fw": spec["framework"],
-            "np_chunks_path": spec["chunks_dir"],
-            "litdata_chunks_path": None,
-            "use_existing_chunks": False,
+            "np_chunks_path": None if lit else spec["chunks_dir"],
+            "litdata_chunks_path": spec["chunks_dir"] if lit else None,
+            "use_existing_chunks": bool(spec.get("use_existing", False)),
             "delete_chunks_after_training": bool(spec["delete_chunks"]),
-            "chunk_size": 100,
-            "preprocessing": {"is_rgb": False, "max_width": None, "max_height": None, "scale": 0.5,
-                              "crop_hw": [64, 64], "min_crop_size": None},
+            "chunk_size": opt(spec, "chunk_size", 100),
+            "preprocessing": {"is_rgb": False, "max_width": None, "max_height": None,
+                              "scale": opt(spec, "scale", 0.5),
+                              "crop_hw": None if opt(spec, "crop_auto", False) else [64, 64],
+                              "min_crop_size": 32 if opt(spec, "crop_auto", False) else None},
             "use_augmentations_train": False,
             "augmentation_config": None,
         },
@@ -72,30 +121,37 @@ def plain_dict(spec: dict) -> dict:
             "pretrained_backbone_weights": None,
             "pretrained_head_weights": None,
             "backbone_config": {"unet": dict(UNET), "convnext": None, "swint": None},
-            "head_configs": head_dict(spec["model_type"]),
+            "head_configs": head_dict(spec["model_type"], bool(opt(spec, "explicit_names", False))),
         },
         "trainer_config": {
             "train_data_loader": {"batch_size": 1, "shuffle": False, "num_workers": 0},
             "val_data_loader": {"batch_size": 1, "shuffle": False, "num_workers": 0},
-            "model_ckpt": {"save_top_k": 1, "save_last": True},
-            "early_stopping": {"stop_training_on_plateau": False, "min_delta": 1e-8, "patience": 20},
+            "model_ckpt": {"save_top_k": opt(spec, "save_top_k", 1), "save_last": opt(spec, "save_last", True)},
+            "early_stopping": {"stop_training_on_plateau": bool(opt(spec, "early_stopping", False)),
+                               "min_delta": 1e-8, "patience": 20},
             "trainer_devices": 1,
             "trainer_accelerator": "cpu",
             "enable_progress_bar": False,
-            "steps_per_epoch": 1,
-            "max_epochs": 1,
+            "steps_per_epoch": opt(spec, "steps_per_epoch", 1),
+            "max_epochs": opt(spec, "max_epochs", 1),
             "seed": 1000,
             "use_wandb": bool(spec["use_wandb"]),
             "save_ckpt": bool(spec["save_ckpt"]),
             "save_ckpt_path": spec["out_dir"],
             "resume_ckpt_path": None,
-            "wandb": {"entity": None, "project": "c19", "name": "c19_run", "wandb_mode": "offline",
+            "wandb": {"entity": None, "project": "c19", "name": "c19_run", "wandb_mode": spec.get("wandb_mode", "offline"),
                       "api_key": spec["key"], "prv_runid": None, "group": None},
             "optimizer_name": "Adam",
             "optimizer": {"lr": 1e-4, "amsgrad": False},
             "lr_scheduler": {"step_lr": {"step_size": 10, "gamma": 0.5}, "reduce_lr_on_plateau": None},
         },
     }
+    # options the structured builder cannot express are only ever set on plain configurations
+    if opt(spec, "profiler", None) is not None:
+        d["trainer_config"]["profiler"] = opt(spec, "profiler", None)
+    if opt(spec, "strategy", None) is not None:
+        d["trainer_config"]["trainer_strategy"] = opt(spec, "strategy", None)
+    return d
 
 
 def build_plain(spec: dict):
@@ -117,19 +173,26 @@ def build_structured(spec: dict):
     data_config = get_data_config(
         train_labels_path=dc["train_labels_path"], val_labels_path=dc["val_labels_path"],
         data_pipeline_fw=dc["data_pipeline_fw"], np_chunks_path=dc["np_chunks_path"],
-        use_existing_chunks=False, delete_chunks_after_training=dc["delete_chunks_after_training"],
-        is_rgb=False, scale=0.5, crop_hw=(64, 64), min_crop_size=None, use_augmentations_train=False)
+        litdata_chunks_path=dc["litdata_chunks_path"], chunk_size=dc["chunk_size"],
+        use_existing_chunks=dc["use_existing_chunks"],
+        delete_chunks_after_training=dc["delete_chunks_after_training"],
+        is_rgb=False, scale=dc["preprocessing"]["scale"],
+        crop_hw=None if dc["preprocessing"]["crop_hw"] is None else tuple(dc["preprocessing"]["crop_hw"]),
+        min_crop_size=dc["preprocessing"]["min_crop_size"], use_augmentations_train=False)
     model_config = get_model_config(
         init_weight="default", pre_trained_weights=None, pretrained_backbone_weights=None,
         pretrained_head_weights=None, backbone_config={"unet": dict(UNET)},
         head_configs={k: v for k, v in d["model_config"]["head_configs"].items() if v is not None})
     trainer_config = get_trainer_config(
-        batch_size=1, shuffle_train=False, num_workers=0, ckpt_save_top_k=1, ckpt_save_last=True,
-        trainer_num_devices=1, trainer_accelerator="cpu", enable_progress_bar=False, steps_per_epoch=1,
-        max_epochs=1, seed=1000, use_wandb=tc["use_wandb"], save_ckpt=tc["save_ckpt"],
+        batch_size=1, shuffle_train=False, num_workers=0, ckpt_save_top_k=tc["model_ckpt"]["save_top_k"],
+        ckpt_save_last=tc["model_ckpt"]["save_last"],
+        trainer_num_devices=1, trainer_accelerator="cpu", enable_progress_bar=False,
+        steps_per_epoch=tc["steps_per_epoch"], max_epochs=tc["max_epochs"], seed=1000, use_wandb=tc["use_wandb"], save_ckpt=tc["save_ckpt"],
         save_ckpt_path=tc["save_ckpt_path"], wandb_project="c19", wandb_name="c19_run",
-        wandb_api_key=spec["key"], wandb_mode="offline", optimizer="Adam", learning_rate=1e-4,
-        lr_scheduler={"step_lr": {"step_size": 10, "gamma": 0.5}}, early_stopping=False)
+        wandb_api_key=spec["key"], wandb_mode=tc["wandb"]["wandb_mode"], optimizer="Adam", learning_rate=1e-4,
+        lr_scheduler={"step_lr": {"step_size": 10, "gamma": 0.5}},
+        early_stopping=tc["early_stopping"]["stop_training_on_plateau"], early_stopping_min_delta=1e-8,
+        early_stopping_patience=20)
     tjc = TrainingJobConfig(data_config=data_config, model_config=model_config, trainer_config=trainer_config)
     return tjc.to_sleap_nn_cfg().copy()
 
@@ -140,7 +203,9 @@ def build_structured(spec: dict):
 class Observer:
     def __init__(self, root: Path, key: str):
         self.root, self.key = Path(root), key.encode()
+        self.patterns = key_patterns(key)
         self.events: list[dict] = []
+        self.encodings_hit: dict[str, str] = {}
 
     def rel(self, p) -> str:
         p = Path(os.path.abspath(str(p)))
@@ -149,11 +214,41 @@ class Observer:
         except ValueError:
             return "!outside:" + p.as_posix()
 
+    def _bytes_have_key(self, data: bytes, where: str) -> bool:
+        for name, pat in self.patterns:
+            if pat in data:
+                self.encodings_hit.setdefault(where, name)
+                return True
+        return False
+
     def has_key(self, p: Path) -> bool:
+        """the key (in any of the encodings of `key_patterns`) occurs in the file — or, for a zip
+        container (torch checkpoints), in any decompressed member; gzip streams are inflated too"""
+        p = Path(p)
         try:
-            return self.key in Path(p).read_bytes()
+            data = p.read_bytes()
         except (OSError, IsADirectoryError):
             return False
+        if self._bytes_have_key(data, self.rel(p)):
+            return True
+        if data[:2] == b"PK":
+            import zipfile
+            try:
+                with zipfile.ZipFile(p) as z:
+                    for n in z.namelist():
+                        if z.getinfo(n).compress_type != zipfile.ZIP_STORED and \
+                                self._bytes_have_key(z.read(n), self.rel(p) + "!" + n):
+                            return True
+            except Exception:
+                pass
+        if data[:2] == b"\x1f\x8b":
+            import gzip
+            try:
+                if self._bytes_have_key(gzip.decompress(data), self.rel(p) + "!gz"):
+                    return True
+            except Exception:
+                pass
+        return False
 
     def scan(self) -> list[str]:
         hits = []
@@ -248,23 +343,105 @@ def to_plain(cfg):
     return OmegaConf.to_container(cfg, resolve=True)
 
 
+class InjectedFault(RuntimeError):
+    pass
+
+
+FAULT_MSG = "C19 injected fault"
+
+
+def raise_fault(kind: str, where: str):
+    if kind == "ki":
+        raise KeyboardInterrupt(f"{FAULT_MSG} (KeyboardInterrupt) at {where}")
+    raise RuntimeError(f"{FAULT_MSG} at {where}")
+
+
+def install_fault(fault: dict | None, obs: Observer):
+    """External exceptions at chosen points.  fit_return / fit_start / ckpt_hook strike inside the
+    `try` of train() (its `finally` must still run); dataset / after_initial strike outside any
+    `try`: the process simply dies there (= a prefix of the write trace)."""
+    if not fault:
+        return
+    at, kind = fault["at"], fault.get("kind", "runtime")
+    import lightning as L
+    if at in ("fit_return", "fit_start"):
+        orig_fit = L.Trainer.fit
+
+        def fit(self, *a, **k):
+            if at == "fit_start":
+                raise_fault(kind, at)
+            orig_fit(self, *a, **k)
+            raise_fault(kind, at)
+        L.Trainer.fit = fit
+    elif at == "ckpt_hook":
+        from sleap_nn.training.lightning_modules import TrainingModel
+        orig_hook = TrainingModel.on_save_checkpoint
+
+        def hook(self, checkpoint):
+            orig_hook(self, checkpoint)
+            raise_fault(kind, at)
+        TrainingModel.on_save_checkpoint = hook
+    elif at == "dataset":
+        from sleap_nn.training.model_trainer import ModelTrainer
+        for nm in ("_create_data_loaders_torch_dataset", "_create_data_loaders_litdata"):
+            def wrap(orig):
+                def f(self, *a, **k):
+                    orig(self, *a, **k)
+                    raise_fault(kind, at)
+                return f
+            setattr(ModelTrainer, nm, wrap(getattr(ModelTrainer, nm)))
+    elif at == "after_initial":
+        from omegaconf import OmegaConf
+        hooked = OmegaConf.save            # the observing wrapper
+
+        def save(config, f, resolve=False):
+            r = hooked(config=config, f=f, resolve=resolve)
+            if str(f).endswith("initial_config.yaml"):
+                raise_fault(kind, at)
+            return r
+        OmegaConf.save = staticmethod(save)
+    else:
+        raise ValueError(f"unknown fault point {at}")
+
+
+def prepare_existing_chunks(spec: dict):
+    """step 1 of the two-step sequence: an un-observed run of the same configuration that creates
+    the chunks and keeps them (delete flag off, tracking off, its own output directory)."""
+    prep = dict(spec)
+    prep.update({"use_existing": False, "delete_chunks": False, "use_wandb": False, "save_ckpt": False,
+                 "out_dir": (Path(spec["in_dir"]) / "prep_out").as_posix(), "opts": dict(spec.get("opts") or {})})
+    prep["opts"].pop("profiler", None)
+    cfg = build_structured(prep) if spec["structured"] else build_plain(prep)
+    from sleap_nn.training.model_trainer import ModelTrainer
+    ModelTrainer(cfg).train()
+
+
 def main():
     spec = json.load(open(sys.argv[1]))
     spec.setdefault("key", KEY_DEFAULT)
+    if spec.get("inject_fit_fault") and not spec.get("fault"):
+        spec["fault"] = {"at": "fit_return", "kind": "runtime"}
     root = Path(spec["root"])                 # scanned tree: everything the run may write
     out_dir = Path(spec["out_dir"])           # save_ckpt_path (under root)
     cwd = root / "cwd"
     for d in (root, cwd, Path(spec["in_dir"])):
         d.mkdir(parents=True, exist_ok=True)
     os.chdir(cwd)
-    home = root / "home"
+    # HOME is the user's credential store, not an output directory (wandb.login writes ~/.netrc by
+    # design): it lives OUTSIDE the scanned tree and is reported separately
+    home = Path(spec["in_dir"]) / "home"
     home.mkdir(exist_ok=True)
+    venv_bin = str(Path(sys.executable).parent)
     os.environ.update({
         "WANDB_MODE": "offline", "WANDB_SILENT": "true", "WANDB_CONSOLE": "off",
         "HOME": home.as_posix(), "WANDB_CONFIG_DIR": (home / "wandb_config").as_posix(),
         "WANDB_CACHE_DIR": (home / "wandb_cache").as_posix(), "WANDB_DATA_DIR": (home / "wandb_data").as_posix(),
         "CUDA_VISIBLE_DEVICES": "", "WANDB_DISABLE_GIT": "true", "WANDB_DISABLE_CODE": "true",
+        # the litdata path starts `python -m sleap_nn.training.get_bin_files`: same interpreter
+        "PATH": venv_bin + os.pathsep + os.environ.get("PATH", ""),
+        "DATA_OPTIMIZER_CACHE_FOLDER": (Path(spec["in_dir"]) / "litdata_cache").as_posix(),
     })
+    os.environ.pop("WANDB_API_KEY", None)
     sys.path.insert(0, str(Path(__file__).resolve().parent.parent))
     from harness import core
     core.impl_env_setup()
@@ -277,10 +454,16 @@ def main():
     logger.remove()
 
     res: dict = {"spec": {k: spec[k] for k in ("model_type", "framework", "use_wandb", "save_ckpt",
-                                               "structured", "delete_chunks", "inject_fit_fault")
+                                               "structured", "delete_chunks", "inject_fit_fault", "wandb_mode",
+                                               "use_existing", "mem_fallback", "fault", "opts")
                           if k in spec}}
     obs = Observer(root, spec["key"])
     try:
+        if spec.get("use_existing"):
+            prepare_existing_chunks(spec)
+            chunks = Path(spec["chunks_dir"])
+            res["prepared_chunk_files"] = len(list(chunks.rglob("*.npz")) + list(chunks.rglob("*.bin")))
+            (chunks / "config.yaml").exists() or obs.events.append({"kind": "prep-missing-chunk-config"})
         cfg = build_structured(spec) if spec["structured"] else build_plain(spec)
         from omegaconf import OmegaConf
         supplied = to_plain(cfg)
@@ -291,16 +474,15 @@ def main():
         res["supplied"] = supplied
         install_hooks(obs)
         from sleap_nn.training.model_trainer import ModelTrainer
-        import lightning as L
-        if spec.get("inject_fit_fault"):
-            orig_fit = L.Trainer.fit
-
-            def fit(self, *a, **k):
-                orig_fit(self, *a, **k)
-                raise RuntimeError("C19 injected fault at the end of Trainer.fit")
-            L.Trainer.fit = fit
+        if spec.get("mem_fallback"):
+            import psutil
+            import collections
+            VM = collections.namedtuple("VM", "available total")
+            psutil.virtual_memory = lambda: VM(available=0, total=1)
+        install_fault(spec.get("fault"), obs)
         # ids of the tracking runs this process opens (the final configuration must record the one it used)
         run_ids = []
+        logins = []
         try:
             import wandb as _wb
             _orig_init = _wb.init
@@ -313,9 +495,18 @@ def main():
                     pass
                 return r
             _wb.init = _init
+            _orig_login = _wb.login
+
+            def _login(*a, **k):
+                logins.append({"key_passed": (k.get("key") or (a[1] if len(a) > 1 else None)) == spec["key"]})
+                r = _orig_login(*a, **k)
+                obs.event("wandb.login")
+                return r
+            _wb.login = _login
         except Exception as e:      # noqa
             obs.events.append({"kind": "hook-missing", "what": "wandb.init", "err": str(e)})
         res["wandb_run_ids"] = run_ids
+        res["wandb_logins"] = logins
         obs.event("start")
         phase = "init"
         trainer = None
@@ -338,9 +529,11 @@ def main():
                 wandb.finish()
         except Exception:
             pass
+        obs.event("after_wandb_finish")
         if trainer is not None:
             res["live_at_exit"] = to_plain(trainer.config)
             res["dir_path"] = obs.rel(trainer.dir_path)
+            res["fw_at_exit"] = str(getattr(trainer, "data_pipeline_fw", None))
         # artifacts at exit
         art = {}
         for name in ("initial_config.yaml", "training_config.yaml"):
@@ -348,12 +541,20 @@ def main():
             art[name] = to_plain(OmegaConf.load(p.as_posix())) if p.exists() else None
         res["artifacts"] = art
         res["ckpt_files"] = sorted(obs.rel(p) for p in out_dir.rglob("*.ckpt"))
-        chunks = Path(spec["chunks_dir"])
-        res["chunk_files"] = sorted(obs.rel(p) for p in chunks.rglob("*.npz")) if chunks.exists() else []
-        res["chunk_dirs"] = [d for d in ("train_chunks", "val_chunks") if (chunks / d).exists()]
+        chunk_files, chunk_dirs = [], []
+        for base in (Path(spec["chunks_dir"]), cwd, out_dir):
+            for d in ("train_chunks", "val_chunks"):
+                if (base / d).exists():
+                    chunk_dirs.append(obs.rel(base / d))
+                    chunk_files += [obs.rel(p) for p in (base / d).rglob("*") if p.is_file()]
+        res["chunk_files"] = sorted(chunk_files)
+        res["chunk_dirs"] = sorted(chunk_dirs)
         res["final_tree_hits"] = obs.scan()
-        res["tree_files"] = sorted(obs.rel(Path(dp) / fn) for dp, _, fns in os.walk(root) for fn in fns
-                                   if "/home/" not in (Path(dp) / fn).as_posix() + "/")[:200]
+        res["encodings_hit"] = obs.encodings_hit
+        # the credential store (outside the output tree): reported, not judged
+        home_obs = Observer(home, spec["key"])
+        res["home_hits"] = home_obs.scan()
+        res["tree_files"] = sorted(obs.rel(Path(dp) / fn) for dp, _, fns in os.walk(root) for fn in fns)[:300]
     except BaseException as e:  # harness-level failure (not a property failure)
         res["harness_error"] = {"type": type(e).__name__, "msg": str(e)[:800], "tb": traceback.format_exc()[-3000:]}
     res["events"] = obs.events
